@@ -1135,7 +1135,7 @@ theorem workerBulks_spec {o : Oracle} (hok : OracleOK o) (cfg : Cfg) (hbulk : 0 
 /-- invariant of `PartitionBulkIndexParamSource` in non-looped mode; `E` = bulks handed out so far -/
 def PInv (n s e : Nat) (all : List (Bulk α)) (c0 : Cnt) (T : Int) (p : PState α) (E : List (Bulk α)) (stopped : List Nat) : Prop :=
   p.totalPartitions = some n ∧ listMin p.partitions = some s ∧ listMax p.partitions = some e ∧
-    ((p.currentBulk = 0 ∧ E = [] ∧ (0 < T → p.cnt = c0 ∧ stopped = [])) ∨
+    ((p.currentBulk = 0 ∧ E = [] ∧ (0 < T → p.cnt = c0 ∧ stopped = [] ∧ p.totalBulks ≠ 0)) ∨
      (0 < p.currentBulk ∧ p.totalBulks = T ∧ p.internal = all.drop p.currentBulk ∧ E = all.take p.currentBulk ∧
        (p.currentBulk : Int) ≤ T ∧ (stopped ≠ [] → all.length ≤ p.currentBulk ∨ (p.currentBulk : Int) = T)))
 
@@ -1143,9 +1143,9 @@ theorem emit_spec {n s e : Nat} {all : List (Bulk α)} {c0 : Cnt} {T : Int} {p :
     {stopped : List Nat}
     (h1 : p.totalPartitions = some n) (h2 : listMin p.partitions = some s) (h3 : listMax p.partitions = some e)
     (ht : p.totalBulks = T) (hi : p.internal = all.drop p.currentBulk) (hE : E = all.take p.currentBulk)
-    (hlt : (p.currentBulk : Int) < T) (hs : stopped ≠ [] → all.length ≤ p.currentBulk) :
+    (hlt : (p.currentBulk : Int) < T) (hs : stopped ≠ [] → all.length ≤ p.currentBulk) (X : Prop) :
     match p.emit with
-    | (.error _, _) => True
+    | (.error _, _) => X
     | (.stopIteration, p1) => ∀ c, PInv n s e all c0 T p1 E (c :: stopped)
     | (.bulk b, p1) => PInv n s e all c0 T p1 (E ++ [b]) stopped := by
   unfold PState.emit
@@ -1180,7 +1180,7 @@ theorem params_spec {o : Oracle} {cfg : Cfg} {corpora : List (Corpus α)} (hl : 
     {p : PState α} {E : List (Bulk α)} {stopped : List Nat}
     (hinv : PInv n s e all c0 (totalBulksOf (numberOfBulks corpora s e n cfg.bulkSize) cfg.pct) p E stopped) :
     match p.params o cfg corpora with
-    | (.error _, _) => True
+    | (.error _, _) => ¬ 0 < totalBulksOf (numberOfBulks corpora s e n cfg.bulkSize) cfg.pct
     | (.stopIteration, p1) => ∀ c, PInv n s e all c0 (totalBulksOf (numberOfBulks corpora s e n cfg.bulkSize) cfg.pct) p1 E (c :: stopped)
     | (.bulk b, p1) => PInv n s e all c0 (totalBulksOf (numberOfBulks corpora s e n cfg.bulkSize) cfg.pct) p1 (E ++ [b]) stopped := by
   set T := totalBulksOf (numberOfBulks corpora s e n cfg.bulkSize) cfg.pct with hTdef
@@ -1193,7 +1193,12 @@ theorem params_spec {o : Oracle} {cfg : Cfg} {corpora : List (Corpus α)} (hl : 
     rw [h1, h2, h3]
     simp only
     cases hw : workerBulks o cfg corpora n s e p.cnt with
-    | error err => simp
+    | error err =>
+      simp only
+      intro hT0
+      obtain ⟨hc0, _, _⟩ := hpos hT0
+      rw [hc0, hall] at hw
+      cases hw
     | ok q =>
       obtain ⟨bs, c'⟩ := q
       simp only [hz, Nat.cast_zero, hl, Bool.false_eq_true, if_false]
@@ -1203,11 +1208,17 @@ theorem params_spec {o : Oracle} {cfg : Cfg} {corpora : List (Corpus α)} (hl : 
         exact ⟨rfl, h2, h3, Or.inl ⟨rfl, hE, fun h => absurd h (by omega)⟩⟩
       · rw [if_neg hT0]
         have hTpos : 0 < T := by omega
-        obtain ⟨hc0, hst⟩ := hpos hTpos
+        obtain ⟨hc0, hst, _⟩ := hpos hTpos
         rw [hc0, hall] at hw
         simp only [Except.ok.injEq, Prod.mk.injEq] at hw
         obtain ⟨rfl, rfl⟩ := hw
-        exact emit_spec rfl h2 h3 rfl rfl (by rw [hE]; rfl) (by simpa using hTpos) (fun hne => absurd hst hne)
+        refine emit_spec (p := ⟨p.partitions, some n, 0, T, all, c1⟩) ?_ h2 h3 ?_ ?_ ?_ ?_ ?_ _
+        · rfl
+        · rfl
+        · rfl
+        · rw [hE]; rfl
+        · simpa using hTpos
+        · exact fun hne => absurd hst hne
   · have hk0 : p.currentBulk ≠ 0 := by omega
     rw [if_neg hk0]
     simp only [ht, hl, Bool.false_eq_true, if_false]
@@ -1216,7 +1227,7 @@ theorem params_spec {o : Oracle} {cfg : Cfg} {corpora : List (Corpus α)} (hl : 
       intro c
       exact ⟨h1, h2, h3, Or.inr ⟨hk, ht, hi, hE, hle, fun _ => Or.inr heq⟩⟩
     · rw [if_neg heq]
-      refine emit_spec h1 h2 h3 ht hi hE (by omega) ?_
+      refine emit_spec h1 h2 h3 ht hi hE (by omega) ?_ _
       intro hne
       rcases hs hne with h | h
       · exact h
@@ -1306,28 +1317,57 @@ theorem runCalls_spec {o : Oracle} {cfg : Cfg} {corpora : List (Corpus α)} (hl 
             · exact List.mem_cons_self ..
             · exact List.mem_cons_of_mem _ (i2 x hx)
 
+/-- a group that has at least one bulk to issue (`0 < total_bulks`) never fails, whatever the call order -/
+theorem runCalls_ok {o : Oracle} {cfg : Cfg} {corpora : List (Corpus α)} (hl : cfg.looped = false) {n s e : Nat}
+    {all : List (Bulk α)} {c0 c1 : Cnt} (hall : workerBulks o cfg corpora n s e c0 = .ok (all, c1))
+    (hT : 0 < totalBulksOf (numberOfBulks corpora s e n cfg.bulkSize) cfg.pct) :
+    ∀ (calls : List Nat) (p : PState α) (E : List (Bulk α)) (stopped : List Nat),
+      PInv n s e all c0 (totalBulksOf (numberOfBulks corpora s e n cfg.bulkSize) cfg.pct) p E stopped →
+      ∃ r, runCalls o cfg corpora calls p stopped = .ok r := by
+  intro calls
+  induction calls with
+  | nil => intro p E stopped _; exact ⟨_, rfl⟩
+  | cons c cs ih =>
+    intro p E stopped hinv
+    unfold runCalls
+    by_cases hc : c ∈ stopped
+    · rw [if_pos hc]; exact ih p E stopped hinv
+    · rw [if_neg hc]
+      have hp := params_spec hl hall (le_of_lt hT) hinv
+      cases hpp : p.params o cfg corpora with
+      | mk res p1 =>
+        rw [hpp] at hp
+        cases res with
+        | error err => exact absurd hT hp
+        | stopIteration => exact ih p1 E (c :: stopped) (hp c)
+        | bulk b =>
+          simp only at hp ⊢
+          obtain ⟨r, hr⟩ := ih p1 (E ++ [b]) stopped hp
+          rw [hr]
+          exact ⟨_, rfl⟩
+
 theorem partitionAll_spec (n : Nat) : ∀ (cs : List Nat) (p : PState α), (p.totalPartitions = none ∨ p.totalPartitions = some n) →
     ∃ p', partitionAll n cs p = .ok p' ∧ p'.partitions = p.partitions ++ cs ∧ p'.currentBulk = p.currentBulk ∧
-      p'.cnt = p.cnt ∧ (cs ≠ [] → p'.totalPartitions = some n) := by
+      p'.cnt = p.cnt ∧ p'.totalBulks = p.totalBulks ∧ (cs ≠ [] → p'.totalPartitions = some n) := by
   intro cs
   induction cs with
-  | nil => intro p _; exact ⟨p, rfl, by simp, rfl, rfl, fun h => absurd rfl h⟩
+  | nil => intro p _; exact ⟨p, rfl, by simp, rfl, rfl, rfl, fun h => absurd rfl h⟩
   | cons c cs ih =>
     intro p hp
     unfold partitionAll PState.partition
     rcases hp with hp | hp
     · rw [hp]
       simp only
-      obtain ⟨p', h1, h2, h3, h4, h5⟩ := ih { p with totalPartitions := some n, partitions := p.partitions ++ [c] } (Or.inr rfl)
-      refine ⟨p', h1, by simpa using h2, h3, h4, fun _ => ?_⟩
+      obtain ⟨p', h1, h2, h3, h4, h4', h5⟩ := ih { p with totalPartitions := some n, partitions := p.partitions ++ [c] } (Or.inr rfl)
+      refine ⟨p', h1, by simpa using h2, h3, h4, h4', fun _ => ?_⟩
       by_cases hcs : cs = []
       · subst hcs; simp only [partitionAll, Except.ok.injEq] at h1; rw [← h1]
       · exact h5 hcs
     · rw [hp]
       simp only [ne_eq, not_true_eq_false, if_false]
-      obtain ⟨p', h1, h2, h3, h4, h5⟩ := ih { p with partitions := p.partitions ++ [c] } (Or.inr hp)
+      obtain ⟨p', h1, h2, h3, h4, h4', h5⟩ := ih { p with partitions := p.partitions ++ [c] } (Or.inr hp)
       simp only [hp] at h1
-      refine ⟨p', h1, by simpa using h2, h3, h4, fun _ => ?_⟩
+      refine ⟨p', h1, by simpa using h2, h3, h4, h4', fun _ => ?_⟩
       by_cases hcs : cs = []
       · subst hcs; simp only [partitionAll, Except.ok.injEq] at h1; rw [← h1]
       · exact h5 hcs
@@ -1717,5 +1757,246 @@ theorem paired_fast {α : Type} (act : Action) (ls : List α) :
   induction ls with
   | nil => trivial
   | cons a t ih => simpa [Paired, Item.line] using ih
+
+/-! ## 8. schedule_for, integral percentages -/
+
+/-- `client_index_in_task` of a task allocation -/
+def entryIdx : Alloc.Entry → Option Nat
+  | .task _ i _ _ => some i
+  | _ => Option.none
+
+/-- a task allocation of a task with `c` clients — whatever the enclosing element's `total_clients` is -/
+def IsAllocOf (c : Nat) (en : Alloc.Entry) : Prop := ∃ sub i g t, en = Alloc.Entry.task sub i g t ∧ sub.clients = c
+
+/-- `schedule_for` partitions the shared source by (client index in task, clients of the task) -/
+theorem partitionEntries_eq (c : Nat) : ∀ (es : List Alloc.Entry) (p : PState α), (∀ en ∈ es, IsAllocOf c en) →
+    partitionEntries es p = partitionAll c (es.filterMap entryIdx) p := by
+  intro es
+  induction es with
+  | nil => intro p _; rfl
+  | cons en es ih =>
+    intro p h
+    obtain ⟨sub, i, g, t, rfl, hc⟩ := h en (List.mem_cons_self ..)
+    simp only [partitionEntries, scheduleForPartition, List.filterMap_cons, entryIdx, partitionAll, hc]
+    cases hp : p.partition i c with
+    | error err => rfl
+    | ok p1 => exact ih p1 (fun x hx => h x (List.mem_cons_of_mem _ hx))
+
+theorem expand_length' (e : Alloc.Element) : (Alloc.expand e).length = e.total := by
+  unfold Alloc.expand Alloc.Element.total Alloc.sumClients
+  generalize e.tasks = ts
+  induction ts with
+  | nil => rfl
+  | cons s ss ih => rw [List.flatMap_cons, List.length_append, ih]; simp
+
+theorem mem_expand {e : Alloc.Element} {p : Alloc.Sub × Nat} (h : p ∈ Alloc.expand e) : p.1 ∈ e.tasks ∧ p.2 < p.1.clients := by
+  unfold Alloc.expand at h
+  obtain ⟨s, hs, hp⟩ := List.mem_flatMap.mp h
+  obtain ⟨i, hi, rfl⟩ := List.mem_map.mp hp
+  exact ⟨hs, List.mem_range.mp hi⟩
+
+/-- what the allocator puts into a `TaskAllocation`: the task, an index below the task's client count,
+    and as `total_clients` the client count of the enclosing element -/
+theorem taskEntry_spec (e : Alloc.Element) (c : Nat) (hc : c < e.total) :
+    ∃ s i, Alloc.taskEntry e c = Alloc.Entry.task s i c e.clients ∧ s ∈ e.tasks ∧ i < s.clients := by
+  have hlen : c < (Alloc.expand e).length := by rw [expand_length']; exact hc
+  have hget := List.getElem?_eq_getElem hlen
+  have hm := mem_expand (List.getElem_mem hlen)
+  refine ⟨(Alloc.expand e)[c].1, (Alloc.expand e)[c].2, ?_, hm.1, hm.2⟩
+  unfold Alloc.taskEntry
+  rw [hget]
+
+/-- for an integral ingest percentage the float computation is the exact ceiling `⌈all·p/100⌉` -/
+theorem totalBulksOf_integral {all p : Nat} (hp : 1 ≤ p) (h : all * p < 2^53) :
+    totalBulksOf (all : Int) (p : ℚ) = (((all * p : Nat) : ℚ) / 100).ceil := by
+  unfold totalBulksOf fceil fdiv fmul ofInt
+  have hall : all < 2^53 := lt_of_le_of_lt (Nat.le_mul_of_pos_right all hp) h
+  have h1 : fl (((all : Int) : ℚ)) = (all : ℚ) := by
+    have := fl_natCast (n := all) hall; simpa using this
+  rw [h1]
+  have h2 : fl ((all : ℚ) * (p : ℚ)) = ((all * p : Nat) : ℚ) := by
+    have := fl_natCast (n := all * p) h
+    rw [← this]; push_cast; rfl
+  rw [h2]
+  set m : Nat := all * p with hm
+  set x : ℚ := (m : ℚ) / 100 with hx
+  have hx0 : 0 ≤ x := by positivity
+  have hmq : (m : ℚ) < 2^53 := by exact_mod_cast h
+  set k : Int := x.ceil with hk
+  have hk0 : 0 ≤ k := by
+    have := Rat.le_ceil (x := x)
+    have : (0:ℚ) ≤ (k : ℚ) := le_trans hx0 this
+    exact_mod_cast this
+  have hxk : x ≤ (k : ℚ) := Rat.le_ceil
+  have hkx : ((k - 1 : Int) : ℚ) < x := by
+    have : k - 1 < x.ceil := by omega
+    exact Rat.lt_ceil_iff.mp this
+  -- k ≤ m (as k-1 < m/100 ≤ m)
+  have hkm : k.toNat < 2^53 := by
+    have : ((k - 1 : Int) : ℚ) < (m : ℚ) := by
+      refine lt_of_lt_of_le hkx ?_
+      rw [hx]; have : (0:ℚ) ≤ m := by positivity
+      linarith
+    have : k - 1 < (m : Int) := by exact_mod_cast this
+    omega
+  apply le_antisymm
+  · -- fl x ≤ k
+    rw [Rat.ceil_le_iff]
+    have := fl_le_nat (n := k.toNat) hkm hx0 (by
+      have : ((k.toNat : Nat) : ℚ) = (k : ℚ) := by
+        have : ((k.toNat : Nat) : Int) = k := Int.toNat_of_nonneg hk0
+        exact_mod_cast this
+      rw [this]; exact hxk)
+    have e : ((k.toNat : Nat) : ℚ) = (k : ℚ) := by
+      have : ((k.toNat : Nat) : Int) = k := Int.toNat_of_nonneg hk0
+      exact_mod_cast this
+    rw [e] at this; exact this
+  · -- k - 1 < fl x
+    have hstep : ((k - 1 : Int) : ℚ) + 1/100 ≤ x := by
+      have h100 : ((k - 1 : Int) : ℚ) * 100 < (m : ℚ) := by
+        have := hkx; rw [hx] at this
+        rw [lt_div_iff₀ (by norm_num : (0:ℚ) < 100)] at this; exact this
+      have hz : (k - 1) * 100 < (m : Int) := by exact_mod_cast h100
+      have hz' : (k - 1) * 100 + 1 ≤ (m : Int) := by omega
+      have hq : ((k - 1 : Int) : ℚ) * 100 + 1 ≤ (m : ℚ) := by exact_mod_cast hz'
+      rw [hx, le_div_iff₀ (by norm_num : (0:ℚ) < 100)]
+      linarith
+    have hrel := (dbl_flSpec.bounds_of_nonneg hx0).1
+    have hxs : x < 2^53 / 100 := by rw [hx]; exact div_lt_div_of_pos_right hmq (by norm_num)
+    have hlt : ((k - 1 : Int) : ℚ) < fl x := by nlinarith
+    have : k - 1 < (fl x).ceil := Rat.lt_ceil_iff.mpr hlt
+    omega
+
+/-! ## 9. a group without any bulk runs to the end as well (code since b9aff71) -/
+
+theorem fl_eq_zero {q : ℚ} (hq : 0 ≤ q) (h : fl q = 0) : q = 0 := by
+  by_contra hne
+  have hpos : 0 < q := lt_of_le_of_ne hq (Ne.symm hne)
+  have := (fl_binade hpos).1
+  rw [h] at this
+  exact absurd this (not_le.mpr (two_zpow_pos _))
+
+theorem totalBulksOf_eq_zero {nb : Nat} {pct : ℚ} (hp : 0 < pct) (h : totalBulksOf (nb : Int) pct = 0) : nb = 0 := by
+  unfold totalBulksOf fceil fdiv fmul ofInt at h
+  have h1 : (0:ℚ) ≤ fl (((nb : Int) : ℚ)) := fl_nonneg (by positivity)
+  have h2 : (0:ℚ) ≤ fl (fl (((nb : Int) : ℚ)) * pct) := fl_nonneg (mul_nonneg h1 (le_of_lt hp))
+  have h3 : (0:ℚ) ≤ fl (fl (((nb : Int) : ℚ)) * pct) / 100 := div_nonneg h2 (by norm_num)
+  have h4 : (0:ℚ) ≤ fl (fl (fl (((nb : Int) : ℚ)) * pct) / 100) := fl_nonneg h3
+  have hle := Rat.le_ceil (x := fl (fl (fl (((nb : Int) : ℚ)) * pct) / 100))
+  rw [h] at hle
+  have ht : fl (fl (fl (((nb : Int) : ℚ)) * pct) / 100) = 0 := le_antisymm (by simpa using hle) h4
+  have hy : fl (fl (((nb : Int) : ℚ)) * pct) / 100 = 0 := fl_eq_zero h3 ht
+  have hy' : fl (fl (((nb : Int) : ℚ)) * pct) = 0 := by
+    have := div_eq_zero_iff.mp hy
+    rcases this with h | h
+    · exact h
+    · norm_num at h
+  have hz : fl (((nb : Int) : ℚ)) * pct = 0 := fl_eq_zero (mul_nonneg h1 (le_of_lt hp)) hy'
+  have hf : fl (((nb : Int) : ℚ)) = 0 := by
+    rcases mul_eq_zero.mp hz with h | h
+    · exact h
+    · exact absurd h (ne_of_gt hp)
+  have : (((nb : Int) : ℚ)) = 0 := fl_eq_zero (by positivity) hf
+  exact_mod_cast this
+
+theorem shareBulks_pos {n s e bulk : Nat} (hb : 0 < bulk) {d : DocSet α} (h : hasShare n s e d = true) :
+    1 ≤ shareBulks n s e bulk d := by
+  unfold shareBulks
+  simp only [hasShare, decide_eq_true_eq] at h
+  obtain ⟨D, hD⟩ := Int.eq_ofNat_of_zero_le (le_of_lt h)
+  rw [hD, bulksOf_natCast, Int.toNat_natCast]
+  have hD1 : 1 ≤ D := by rw [hD] at h; exact_mod_cast h
+  by_cases hlt : D < bulk
+  · have : D % bulk = D := Nat.mod_eq_of_lt hlt
+    rw [this]; simp only [show D > 0 from hD1, if_true]; exact Nat.le_add_left 1 _
+  · have : 1 ≤ D / bulk := Nat.div_pos (by omega) hb
+    omega
+
+theorem no_share_of_numberOfBulks_zero {n s e bulk : Nat} (hs : s ≤ e) (hb : 0 < bulk) {corpora : List (Corpus α)}
+    (h : numberOfBulks corpora s e n bulk = 0) : ∀ d ∈ corpora.flatten, hasShare n s e d = false := by
+  rw [numberOfBulks_eq hs] at h
+  have hsum : ((corpora.flatten.filter (hasShare n s e)).map (shareBulks n s e bulk)).sum = 0 := by exact_mod_cast h
+  intro d hd
+  by_contra hne
+  have hsh : hasShare n s e d = true := by simpa using hne
+  have hmem : d ∈ corpora.flatten.filter (hasShare n s e) := List.mem_filter.mpr ⟨hd, hsh⟩
+  have h1 := shareBulks_pos (bulk := bulk) hb hsh
+  have h2 : shareBulks n s e bulk d ≤ ((corpora.flatten.filter (hasShare n s e)).map (shareBulks n s e bulk)).sum :=
+    List.single_le_sum (by intro x _; exact Nat.zero_le x) _ (List.mem_map_of_mem hmem)
+  omega
+
+theorem corpusReaders_no_share (o : Oracle) (cfg : Cfg) (n s e : Nat) :
+    ∀ (corpus : Corpus α) (sc : Nat), (∀ d ∈ corpus, hasShare n s e d = false) →
+      corpusReaders o cfg n s e corpus sc = .ok ([], sc) := by
+  intro corpus
+  induction corpus with
+  | nil => intro sc _; rfl
+  | cons d ds ih =>
+    intro sc h
+    have hd := h d (List.mem_cons_self ..)
+    simp only [hasShare, decide_eq_false_iff_not] at hd
+    unfold corpusReaders
+    simp only []
+    rw [if_neg hd]
+    exact ih sc (fun x hx => h x (List.mem_cons_of_mem _ hx))
+
+theorem queuesOf_no_share (o : Oracle) (cfg : Cfg) (n s e : Nat) :
+    ∀ (cs : List (Corpus α)) (sc : Nat), (∀ d ∈ cs.flatten, hasShare n s e d = false) →
+      ∃ qs, queuesOf o cfg n s e cs sc = .ok (qs, sc) ∧ total qs = 0 := by
+  intro cs
+  induction cs with
+  | nil => intro sc _; exact ⟨[], rfl, rfl⟩
+  | cons c cs ih =>
+    intro sc h
+    have hc := corpusReaders_no_share o cfg n s e c sc (fun d hd => h d (by simp [hd]))
+    obtain ⟨qs, hq, ht⟩ := ih sc (fun d hd => h d (by simp only [List.flatten_cons, List.mem_append]; exact Or.inr hd))
+    refine ⟨[] :: qs, ?_, ?_⟩
+    · unfold queuesOf; rw [hc]; simp only; rw [hq]
+    · simpa [total] using ht
+
+/-- a group whose share of every document set is empty builds an empty generator, whatever the draw counters -/
+theorem workerBulks_no_share (o : Oracle) (cfg : Cfg) (n s e : Nat) {corpora : List (Corpus α)} (hne : corpora.length ≠ 0)
+    (h : ∀ d ∈ corpora.flatten, hasShare n s e d = false) (c : Cnt) :
+    workerBulks o cfg corpora n s e c = .ok ([], c) := by
+  have hrot : (rotate corpora (s % corpora.length)).flatten.Perm corpora.flatten := List.Perm.flatten (rotate_perm _ _)
+  obtain ⟨qs, hq, ht⟩ := queuesOf_no_share o cfg n s e (rotate corpora (s % corpora.length)) c.s
+    (fun d hd => h d (hrot.mem_iff.mp hd))
+  unfold workerBulks createReaders
+  rw [if_neg hne, hq]
+  simp only [ht, stagger, chainBulks, Bool.false_eq_true, if_false]
+
+/-- `createReaders` fails for an empty corpus list before anything else: a successful build has corpora -/
+theorem corpora_ne_of_workerBulks_ok {o : Oracle} {cfg : Cfg} {corpora : List (Corpus α)} {n s e : Nat} {c c' : Cnt}
+    {bs : List (Bulk α)} (h : workerBulks o cfg corpora n s e c = .ok (bs, c')) : corpora.length ≠ 0 := by
+  intro h0
+  unfold workerBulks createReaders at h
+  rw [if_pos h0] at h
+  cases h
+
+/-- with `total_bulks = 0` every call re-initialises the (empty) group and ends the caller: no failure -/
+theorem runCalls_ok_zero {o : Oracle} {cfg : Cfg} {corpora : List (Corpus α)} (hl : cfg.looped = false) {n s e : Nat}
+    (hne : corpora.length ≠ 0) (hno : ∀ d ∈ corpora.flatten, hasShare n s e d = false)
+    (hT : totalBulksOf (numberOfBulks corpora s e n cfg.bulkSize) cfg.pct = 0) :
+    ∀ (calls : List Nat) (p : PState α) (stopped : List Nat),
+      p.totalPartitions = some n → listMin p.partitions = some s → listMax p.partitions = some e → p.currentBulk = 0 →
+      ∃ r, runCalls o cfg corpora calls p stopped = .ok r := by
+  intro calls
+  induction calls with
+  | nil => intro p stopped _ _ _ _; exact ⟨_, rfl⟩
+  | cons c cs ih =>
+    intro p stopped h1 h2 h3 hz
+    unfold runCalls
+    by_cases hc : c ∈ stopped
+    · rw [if_pos hc]; exact ih p stopped h1 h2 h3 hz
+    · rw [if_neg hc]
+      have hp : p.params o cfg corpora =
+          (.stopIteration, { p with internal := [], cnt := p.cnt, totalBulks := 0 }) := by
+        unfold PState.params
+        rw [if_pos hz]
+        unfold PState.initInternal
+        rw [h1, h2, h3]
+        simp only [workerBulks_no_share o cfg n s e hne hno p.cnt, hT, hz, Nat.cast_zero, if_true, hl, Bool.false_eq_true, if_false]
+      rw [hp]
+      exact ih _ (c :: stopped) h1 h2 h3 hz
 
 end Bulk
